@@ -60,6 +60,7 @@ func edgeTargets() []WEdge {
 		{Kind: "local", Target: "./", TFinder: "F1"}, // self reference
 		{Kind: "local", Target: "../../x", TFinder: "F1"},
 		{Kind: "local", Target: "../m", TFinder: "F1"},
+		{Kind: "remote", Target: P1, TFinder: "G1"},
 	}
 }
 
@@ -77,6 +78,7 @@ func addMenu() []AddCall {
 		{Kind: "remote", Addr: P1, Finder: "F2"},
 		{Kind: "remote", Addr: P5, Finder: "F1"},
 		{Kind: "remote", Addr: P6, Finder: "F2"},
+		{Kind: "remote", Addr: P1, Finder: "G1"}, // another finder TYPE that prints like F1
 	}
 }
 
@@ -414,11 +416,11 @@ func RunBundleWorlds(id, tier string) int {
 	thorough := tier == "thorough"
 	deadline := time.Now().Add(100 * time.Second)
 	maxAdds, maxEdges := 2, 2
-	addIdx := []int{0, 1, 2, 4, 5, 6, 8}
+	addIdx := []int{0, 1, 2, 4, 5, 6, 8, 12}
 	if thorough {
 		deadline = time.Now().Add(25 * time.Minute)
 		maxEdges = 3
-		addIdx = []int{0, 1, 2, 3, 4, 5, 6, 7, 8, 9}
+		addIdx = []int{0, 1, 2, 3, 4, 5, 6, 7, 8, 9, 12}
 	}
 	genDeadline := time.Now().Add(40 * time.Second)
 	if thorough {
